@@ -307,6 +307,41 @@ def c03(ctx):
             for wrap in ("<div>%s</div>;", "<>%s</>;", "<A b={1}>\n%s\n</A>;", "<p>a{b}%s</p>;"):
                 cases.append({"src": wrap % (lead + body), "media": "tsx", "rules": "all", "bounds": True, "display": True})
     res = lib.run_vh("lint", cases, per_case_timeout=5)
+    seen = collections.Counter()
+    # comments that repeat the text of the neighbouring tokens, inserted BETWEEN tokens of the test programs (a rule that finds its place by
+    # searching the text instead of looking at tokens lands inside the comment); plus hand-written import-attribute forms
+    gap_cases = []
+    for c, x in list(zip(cases, res))[:2500]:
+        if x is None or "ok" not in x or not x.get("bounds") or c["media"] not in ("ts", "tsx", "js", "jsx", "mts", "mjs"):
+            continue
+        bsrc = c["src"].encode("utf8")
+        tb = sorted(set(x["bounds"]))
+        if len(tb) < 4 or len(bsrc) > 4000:
+            continue
+        for _ in range(2):
+            i = rng.randrange(1, len(tb) - 1)
+            pos = tb[i]
+            prev_t = bsrc[tb[i - 1]:pos].decode("utf8", "replace").strip()
+            next_t = bsrc[pos:tb[i + 1]].decode("utf8", "replace").strip()
+            words = " ".join(w for w in (next_t, prev_t) if w and "*/" not in w and "\n" not in w and len(w) < 40)
+            if not words:
+                continue
+            gap_cases.append(dict(c, src=(bsrc[:pos] + (" /* %s */ " % words).encode("utf8") + bsrc[pos:]).decode("utf8", "replace"), display=True, bounds=True))
+    for imp in ('import d from "./d.json" /* assert json */ assert { type: "json" };', 'import d from "./d.json" /* was: assert */ with { type: "json" };',
+                'export * from "./d.json" /* assert */ assert { type: "json" };', 'import d from "./assert.json" assert { type: "json" };',
+                'import { assert } from "./assert.ts"; import e from "./e.json" assert /* assert */ { type: "json" };',
+                'const m = await import("./d.json", /* assert */ { assert: { type: "json" } });'):
+        for m in ("ts", "js"):
+            gap_cases.append({"src": imp, "media": m, "rules": "all", "bounds": True, "display": True})
+    gres = lib.run_vh("lint", gap_cases, per_case_timeout=5)
+    for c, x in zip(gap_cases, gres):
+        if x is None or "ok" not in x:
+            continue
+        for cls, detail in wellformed(c, x):
+            seen[cls] += 1
+            if seen[cls] <= 2:
+                ctx.violation("C03." + cls, detail, {"case": c, "result": x})
+    ctx.extra["gap_comment_cases"] = len(gap_cases)
     # leading byte order marks: the file is linted like the file without them (release and debug builds)
     bom_base = [c for c in cases[:400] if not c["src"].startswith("#!")]
     for profile in ("release", "debug"):
@@ -320,7 +355,6 @@ def c03(ctx):
                     if nbad <= 1:
                         ctx.violation("C03.bom-input-not-linted:%s" % profile, "%d leading BOM(s): %s instead of diagnostics (%s build)" % (nb, status(x1), profile),
                                       {"case": dict(c, src="\ufeff" * nb + c["src"]), "result": x1})
-    seen = collections.Counter()
     nontriv = set()
     ndiags = 0
     for c, x in zip(cases, res):
